@@ -16,7 +16,7 @@ race=""; grep -qi '\-race' "$d/notes.md" 2>/dev/null && race="-race"
 if go test $race -vet=off -count=1 -run . . >/tmp/seedtest.demo1 2>&1; then echo "demo with change: PASS (seed not confirmed!)"; else echo "demo with change: FAIL (as intended)"; fi
 rm zz_seed_demo_test.go
 for id in "$@"; do
-  (cd /verif && VERIF_REPO=$W VERIF_OUT=$O ./verif $id quick 2>&1 | grep -E '^VIOLATION|clause=|^C[0-9]+ quick|HARNESS|KNOWN' | head -7)
+  (cd ${VERIF_DIR:-/verif} && VERIF_REPO=$W VERIF_OUT=$O ./verif $id quick 2>&1 | grep -E '^VIOLATION|clause=|^C[0-9]+ quick|HARNESS|KNOWN' | head -7)
 done
 git checkout -- . ; cp "$d/demo_test.go" ./zz_seed_demo_test.go
 if go test $race -vet=off -count=1 -run . . >/tmp/seedtest.demo2 2>&1; then echo "demo without change: PASS"; else echo "demo without change: FAIL (seed not confirmed!)"; tail -5 /tmp/seedtest.demo2; fi
